@@ -37,5 +37,13 @@ def handle : List String → Option String
     let cs ← (← parseList conns).mapM parseConn
     let (outs, alive) := serve cfg {} cs
     pure s!"alive={boolStr alive} {listStr (outs.map fun o => "/".intercalate (o.map roStr))}"
+  -- hosts <m/c/r;m/c/r;…> [a@t@host@n,…]
+  | ["hosts", cfgs, conns] => do
+    let cs ← (cfgs.splitOn ";").mapM (fun c => match c.splitOn "/" with | [m, ce, r] => parseCfg m ce r | _ => none)
+    let cn ← (← parseList conns).mapM (fun s => match s.splitOn "@" with
+      | [a, t, h, n] => do pure (← a.toNat?, ← t.toNat?, ← h.toNat?, ← n.toNat?)
+      | _ => none)
+    let (outs, alive) := serveHosts cs (cs.map fun _ => {}) cn
+    pure s!"alive={boolStr alive} {listStr (outs.map fun o => "/".intercalate (o.map roStr))}"
   | _ => none
 end Drv.C12
